@@ -49,6 +49,22 @@ PROPS = {
         assumptions=ASSUME_WB + ["'no write' is observed through mtimes: every file is aged to a fixed past instant before each call"],
         stages=[dict(name="update", run="^TestC04_", quick=600, thorough=5000, shards_quick=4, shards_thorough=16)],
     ),
+    "C07": dict(
+        rule="case = test program (1-5 tests/subtests, 0-12 calls each over all five APIs and 1-3 configs incl. custom Filename/Ext/second dir), -count 1-3, -run in {empty, Test, ^Test, exact alternation, .}, "
+             "pre-existing directory from a recording run plus stale entries at random positions, stale files, unrelated files, sub-directories; some slots are first added in the run itself; "
+             "Clean in every mode x sort. Oracle: every slot addressed in this process keeps its entry/standalone file byte-identical, is never listed, and a read-only replay passes. "
+             "non-trivial = -count > 1, or a test with >= 10 calls, or standalone and multi-entry mixed, or stale neighbours present; distinct = distinct canonical JSON",
+        assumptions=ASSUME_WB + ["Clean is the exported function driven in-process with test.run/test.count set through the flag package; -run values always select every executed test"],
+        stages=[dict(name="clean_keeps", run="^TestC07_", quick=400, thorough=4000, shards_quick=4, shards_thorough=16)],
+    ),
+    "C09": dict(
+        rule="case = as C07 but -run empty, with skip-protected tests (snaps.Skip/Skipf/SkipNow before any or after some calls, always in files shared with running tests), "
+             "stale entries (absent tests, ordinals beyond the calls), stale multi-entry and standalone files, unrelated files, sub-directories (one named sub.snap), an unaddressed directory, -count 1-3, all modes x sort. "
+             "Oracle: reported set contains every stale item of the model and no addressed item; removed iff reported and deletion allowed; everything else byte- and mtime-identical. "
+             "non-trivial = at least one stale entry and one stale file present; distinct = distinct canonical JSON",
+        assumptions=ASSUME_WB + ["skip-protected entries are exempt from the completeness demand (C08 judges them)"],
+        stages=[dict(name="clean_reports", run="^TestC09_", quick=400, thorough=5000, shards_quick=4, shards_thorough=16)],
+    ),
     "C10": dict(
         rule="case = 1-2 well-formed files rendered by the reference renderer (0-25 entries: per test live ordinals 1..n plus stale ordinals beyond, natural-order traps like T2/T10, "
              "random order, bodies with blank/terminator-like/header-like lines), mode (default/clean/true/CI/other) x sort on/off. A process replays every live entry through MatchSnapshot, "
